@@ -21,8 +21,8 @@ ROOT = os.path.dirname(os.path.dirname(os.path.dirname(os.path.abspath(__file__)
 
 def sizes(ctx):
     if ctx.quick:
-        return dict(core=450, excon=200, nola=50, wide=40, retry=150)
-    return dict(core=15000, excon=6000, nola=800, wide=800, retry=3000)
+        return dict(core=450, excon=200, nola=50, wide=40, retry=150, flags=120)
+    return dict(core=15000, excon=6000, nola=800, wide=800, retry=3000, flags=3000)
 
 def limited(rng, base):
     return dict(base, mvpn=rng.choice([1, 2, 3, 7]), avpm=rng.choice([0, 1, 2]),
@@ -49,6 +49,12 @@ def gen_cases(ctx):
         add('nola', rc['nola'][i % len(rc['nola'])], False, 0.75, False)
     for i in range(n['wide']):
         add('wide', rc['wide'][i % len(rc['wide'])], False, 0.75, False)
+    for i in range(n.get('flags', 0)):
+        c = CG.gen_case(rng, coding_p=0.85, nvar=rng.choice([2, 3, 4, 5, 6]))
+        sect, w2f = rng.choice([(True, False), (False, True), (True, True)])
+        c['runs'] = [limited(rng, CG.gen_run(rng, rule='trypsin', exc_on=False, sect=sect, w2f=w2f))]
+        c['stream'] = 'flags'
+        cases.append(c)
     # retry clause: the first n attempts of every transcript are made to time out (inside the worker only)
     for i in range(n.get('retry', 0)):
         c = CG.gen_case(rng, coding_p=0.75, nvar=rng.choice([2, 3, 4, 5, 6]))
@@ -64,8 +70,10 @@ def gen_cases(ctx):
             if kind == 'sorted':
                 mvs.sort(reverse=True); avs.sort(reverse=True)
         nto = rng.choice([0, 1, 1, 2, 2, 3, 4, 8])
-        c['runs'] = [dict(base, mvpn=mvs, avpm=avs, force_timeouts=nto, mnc=rng.choice([2, 5, 30]), naa=rng.choice([1, 3, 5])),
-                     dict(base, mvpn=mvs[0], avpm=avs[0], skip_oracle=True)]
+        first_only = rng.random() < 0.4
+        knobs = dict(mnc=rng.choice([2, 5, 30]), naa=rng.choice([1, 3, 5]))
+        c['runs'] = [dict(base, mvpn=mvs, avpm=avs, force_timeouts=nto, force_first_only=first_only, **knobs),
+                     dict(base, mvpn=mvs[0], avpm=avs[0], skip_oracle=True, **knobs)]
         c['stream'] = 'retry'
         c['tuple_kind'] = kind
         cases.append(c)
@@ -88,9 +96,7 @@ def judge(evs, violations, stats):
         st = ev.case.get('stream', '?').split(':')[0]
         stats['runs:' + st] += 1
         if ev.exc:
-            if CK.is_nola_crash(ev.run, ev.exc):
-                stats['crash_nolookahead'] += 1      # nothing is emitted: soundness holds vacuously; C01 owns the finding
-            elif st == 'retry' and ev.run.get('force_timeouts') is not None and ev.exc['__exc__'] == 'ValueError':
+            if st == 'retry' and ev.run.get('force_timeouts') is not None and ev.exc['__exc__'] == 'ValueError':
                 pass                                 # judged against the model of caller_reducer in judge_retry
             else:
                 violations.append({'what': 'callVariant aborted with %s (%s)' % (ev.exc['__exc__'], ev.exc.get('msg', '')[:120]),
@@ -170,11 +176,29 @@ def judge_retry(es, violations, stats):
         if a.exc.get('__exc__') == 'ValueError':
             viol('raised ValueError although the model expects the attempt with limits %s to run' % pairs[-1])
         return            # other classes are reported by the generic part
-    for tx, seq in by_tx.items():
+    first_only = bool(run.get('force_first_only'))
+    for n_tx, (tx, seq) in enumerate(by_tx.items()):
         stats['retry_sequences'] += 1
-        if seq != pairs:
-            viol('limits per attempt for %s are %s, model says %s' % (tx, seq, pairs))
+        expect = pairs if (n_tx == 0 or not first_only) else pairs[:1]
+        if seq != expect:
+            viol('limits per attempt for %s are %s, model says %s%s' % (
+                     tx, seq, expect, ' (a LATER transcript: the limits reduced for the first one leaked)' if n_tx and first_only else ''))
             return
+    if first_only and len(by_tx) >= 2 and len(es) > 1 and not es[1].exc:
+        # only the first transcript timed out: every later transcript must give what it gives without any timeout
+        stats['retry_later_tx_checked'] += 1
+        def per_tx(ev):
+            d = collections.defaultdict(set)
+            for sq, ents in ev.got.items():
+                for e in ents:
+                    d[e.split('|')[0]].add(sq)
+            return d
+        da, db = per_tx(a), per_tx(es[1])
+        for tx in list(by_tx)[1:]:
+            diff = [p for p in (da[tx] ^ db[tx]) if not C01.explain_diff(a, p)]
+            if diff:
+                viol('transcript %s (not timed out) yields %s differently after an EARLIER transcript was retried' % (tx, sorted(diff)[:4]))
+                return
     if len(es) > 1 and not es[1].exc:
         b = es[1]
         sorted_tuples = all(_tight(y, x) for x, y in zip(run['mvpn'], run['mvpn'][1:])) and \
